@@ -1,5 +1,5 @@
 (* C06 driver: one s-expression job per line on stdin, one result line per job on stdout.
-   job    ::= (<fixed:0|1> <tree> (<edit> ...) (<cursor> ...))
+   job    ::= (<variant: v + two bits wrap_fixed move_asserts, e.g. v11> <tree> (<edit> ...) (<cursor> ...))
    tree   ::= (<label> (<tree> ...) (<tree> ...))
    path   ::= ((b|o <idx>) ...)
    edit   ::= (replace path attr lo hi (tree ...)) | (delete path attr lo hi pl) | (insert path side (tree ...))
@@ -7,7 +7,7 @@
    cursor ::= (n path) | (b path attr lo hi) | (g path side)
    result ::= (<tree>|none (<valid_edit per edit on its intermediate tree> ...) (<move_pre per edit> ...)
                (<res> ...))         per cursor: (res ...) one per step, stopping after a non-ok / out-of-bounds step;
-               res ::= (ok cursor inb valid) | invalid | crash            *)
+               res ::= (ok cursor inb valid covered) | invalid | crash   (covered: hypotheses of C06_edit hold)            *)
 open Model
 
 type sx = A of string | L of sx list
@@ -88,7 +88,9 @@ let pr_bool x = pr (if x then "1" else "0")
 let run_job (line : string) =
   match parse line with
   | L [A fixed; t; L es; L cs] ->
-      let fixed = (fixed = "1") in
+      (* two bits: wrap_fixed, move_asserts *)
+      let fixed = { wrap_fixed = (String.length fixed > 1 && fixed.[1] = '1');
+                    move_asserts = (String.length fixed > 2 && fixed.[2] = '1') } in
       let t = to_tree t in
       let es = List.map to_edit es in
       let cs = List.map to_cursor cs in
@@ -122,7 +124,8 @@ let run_job (line : string) =
                      (match fwd_edit fixed e t c with
                       | Ok c' -> let ib = inb_cursorb t1 c' in
                                  pr "(ok "; pr_cursor c'; pr " "; pr_bool ib; pr " ";
-                                 pr_bool (valid_cursorb t1 c'); pr ")";
+                                 pr_bool (valid_cursorb t1 c'); pr " ";
+                                 pr_bool (valid_editb t e && valid_cursorb t c && edit_okb fixed e c); pr ")";
                                  if ib then steps t1 r c' false
                       | Invalid -> pr "invalid"
                       | Crash -> pr "crash")) in
